@@ -160,9 +160,74 @@ fn sampled_multi() -> (usize, Vec<String>) {
     (runs, bad)
 }
 
+/// C16: library solutions (deterministic method) of a small game with a chance node, for the
+/// documented meaning of the CLI options; also writes the game in the JSON DSL for the binary.
+fn cli16() -> String {
+    use cfr::PlayerNum::{One, Two};
+    let a = [[3.0, -1.0], [-2.0, 4.0], [-3.0, -2.0]];
+    let b = [[-1.0, 2.0], [1.0, -3.0], [0.5, 0.5]];
+    let rows = ["a1", "a2", "a3"];
+    let cols = ["b1", "b2"];
+    let sub = |m: [[f64; 2]; 3], pinfo: &str| {
+        p(One, pinfo, (0..3).map(|i| (rows[i], p(Two, "q", (0..2).map(|j| (cols[j], t(m[i][j]))).collect()))).collect())
+    };
+    let game = Game::from_root(c(None, vec![(1.0, sub(a, "p")), (3.0, sub(b, "r"))])).unwrap();
+    // the same game in the JSON DSL
+    let js = |m: [[f64; 2]; 3], pinfo: &str| -> String {
+        let acts: Vec<String> = (0..3)
+            .map(|i| {
+                let inner: Vec<String> = (0..2).map(|j| format!("\"{}\": {{\"terminal\": {}}}", cols[j], m[i][j])).collect();
+                format!("\"{}\": {{\"player\": {{\"player_one\": false, \"infoset\": \"q\", \"actions\": {{{}}}}}}}", rows[i], inner.join(", "))
+            })
+            .collect();
+        format!("{{\"player\": {{\"player_one\": true, \"infoset\": \"{}\", \"actions\": {{{}}}}}}}", pinfo, acts.join(", "))
+    };
+    let text = format!(
+        "{{\"chance\": {{\"outcomes\": {{\"x\": {{\"prob\": 1.0, \"state\": {}}}, \"y\": {{\"prob\": 3.0, \"state\": {}}}}}}}}}",
+        js(a, "p"),
+        js(b, "r")
+    );
+    let dir = "/verif/.work/cli-games";
+    let _ = std::fs::create_dir_all(dir);
+    std::fs::write(format!("{dir}/chance_game.json"), text).unwrap();
+    let presets = [
+        ("vanilla", RegretParams::vanilla()),
+        ("lcfr", RegretParams::lcfr()),
+        ("cfr-plus", RegretParams::cfr_plus()),
+        ("dcfr", RegretParams::dcfr()),
+        ("dcfr-prune", RegretParams::dcfr_prune()),
+    ];
+    let mut items = Vec::new();
+    let mut push = |key: String, s: &cfr::Strategies<String, String>| {
+        let named = probs_of(s);
+        let get = |i: &str, a: &str| named.iter().find(|(x, y, _)| x == i && y == a).map(|v| v.2).unwrap_or(0.0);
+        let mut v = Vec::new();
+        for info in ["0:p", "0:r"] {
+            for r in rows {
+                v.push(get(info, r));
+            }
+        }
+        for cname in cols {
+            v.push(get("1:q", cname));
+        }
+        items.push(format!("\"{}\": [{}]", key, v.iter().map(|x| format!("{x:e}")).collect::<Vec<_>>().join(",")));
+    };
+    for (name, params) in presets {
+        for (t, thr) in [(37u64, 0.0), (400, 0.35)] {
+            let (s, _) = game.solve(SolveMethod::Full, t, thr, 1, Some(params)).unwrap();
+            push(format!("full|{name}|{t}|{thr}"), &s);
+        }
+    }
+    format!("{{\"check\":\"cli16\",\"runs\":{},\"violations\":0,\"solutions\":{{{}}}}}", items.len(), items.join(","))
+}
+
 fn main() {
     let args: Vec<String> = std::env::args().collect();
     let which = args.get(1).map(|s| s.as_str()).unwrap_or("");
+    if which == "cli16" {
+        println!("{}", cli16());
+        return;
+    }
     let (runs, bad) = match which {
         "c09" => c09(),
         "c06" => threads(&[(SolveMethod::Full, true), (SolveMethod::Full, false)]),
